@@ -59,8 +59,10 @@ def run(ctx):
     chunk = max(50, len(pcases) // 8 + 1)
     jobs.append(("select-project", [{"kind": "select_project", "cases": pcases[i:i + chunk]} for i in range(0, len(pcases), chunk)]))
     scases = expr_api.select_e2e_cases(rng, ctx.scale(4, 60))
-    chunk = max(1, len(scases) // 8 + 1)
-    jobs.append(("select-e2e", [{"kind": "select_e2e", "cases": scases[i:i + chunk]} for i in range(0, len(scases), chunk)]))
+    # one job per (project, ≤ 3 builds): the builds are the slow part, spread them over the pool
+    split = [dict(c, queries=c["queries"][i:i + 3]) for c in scases for i in range(0, len(c["queries"]), 3)]
+    chunk = max(1, len(split) // 12 + 1)
+    jobs.append(("select-e2e", [{"kind": "select_e2e", "cases": split[i:i + chunk]} for i in range(0, len(split), chunk)]))
     flat = [(tag, j) for tag, js in jobs for j in js]
     # biggest jobs first so the pool stays busy
     results = expr_api.run_jobs([j for _, j in flat], ctx.use_model)
